@@ -15,6 +15,19 @@ CLAIMED = {
          "correspondence and f64 runs held to the proved bound.", "§5 C01",
          "rounding only under the standard model (no overflow/underflow); f32 not run",
          "Lean 4 proof (field algebra over the lookup theorem C11) + exact-rational correspondence"),
+ "C02": ("Kernel-checked: for every strictly increasing axis (n>=3), every data set and every non-periodic boundary pair the solver "
+         "never fails (all Thomas pivots positive, C02_build), every answered query is the value of one cubic of degree <= 3 per interval "
+         "(C02_eval, C02_cubic as Mathlib Polynomial), passes through the data (C02_through, C02_knot), is C1 (C02_C1) and C2 (C02_C2, from "
+         "thomas_sound + the row<->C2 equivalence). Exact correspondence + exact oracle (values at knots, 5th sample on the fitted cubic, "
+         "derivative jumps = 0) for all boundary selections incl. Periodic and per-lane Individual; f64 closeness test.", "§5 C02",
+         "single-lane theorems (lanes via C08); periodic covered by exact oracle/correspondence, its theorems are in C07; no rounding bound for the spline",
+         "Lean 4 proof (Thomas soundness, pivot positivity by induction, field algebra) + exact-rational correspondence"),
+ "C03": ("Kernel-checked: the returned slopes satisfy the selected condition at each end (C03_conditions: S'=v, S''=v, continuous third "
+         "derivative for NotAKnot incl. the repaired right row; C03_parabola) and are the only slopes whose piecewise cubic is C2 and meets "
+         "the end conditions (C03_unique via thomas_unique, C03_unique_values); C03_defect_witness machine-checks that the pre-repair row is "
+         "not the NotAKnot condition. Exact end-condition residuals on the implementation and comparison with an independent exact spline "
+         "(Gaussian elimination on the conditions) for all 25 end pairs, Periodic, per-lane assignments.", "§5 C03",
+         "single-lane theorems (lanes via C08); periodic by oracle + correspondence", "Lean 4 proof (system <-> conditions equivalence, uniqueness) + exact oracles"),
  "C04": ("Theorems C04_struct, C04_blend, C04_node, C04_gridline, C04_transpose for all grids, axes, lanes and in-grid queries; "
          "exact correspondence and blend oracle at Q, f64 runs within the composed rounding bound, transposition metamorphic test.",
          "§5 C04", "rounding as C01 (three nested calc_frac)", "Lean 4 proof (field identities, bracket uniqueness) + exact-rational correspondence"),
@@ -35,6 +48,11 @@ CLAIMED = {
  "C12": ("Theorems for every list: C12_classify/C12_iff (any linear order), C12_nan (no assumption on the comparisons), "
          "C12_shortcircuit; exhaustive relation words and NaN placements through crate and model.", "§5 C12",
          "IEEE non-NaN order trusted", "Lean 4 proof (automaton invariant by induction) + exhaustive word correspondence"),
+ "C16": ("Kernel-checked: C16_linear, C16_bilinear (every query, in range or extrapolated), C16_spline (a cubic meeting the selected end "
+         "conditions is reproduced: solver returns p'(x_i) by uniqueness, Hermite form of a cubic is the cubic), C16_notAKnot (n>=4), "
+         "C16_natural_line. Exact reproduction checked at Q for random dyadic polynomials, all spacings, extrapolated queries, lanes with "
+         "different polynomials.", "§5 C16", "f64 'up to rounding' via C01/C02 closeness runs",
+         "Lean 4 proof (uniqueness of the spline + exact Hermite interpolation) + exact reproduction runs"),
  "C20": ("Theorems C20_linear_data / C20_bilinear_data for ARBITRARY scalar operations (bit-identity, NaN/inf included) and "
          "C20_linear_axis / C20_bilinear_axis over ordered fields (bracket transfer); metamorphic bitwise runs on the real f64 code "
          "with poisoned rows/columns and moved knots.", "§5 C20", "axis variant for floats rests on the same-bracket premise exercised by the runs",
